@@ -5,6 +5,11 @@ ROOT = os.path.dirname(os.path.dirname(os.path.abspath(__file__)))
 
 # id -> (engine, category, technique, level text, level note, design_ref)
 CHECKS = {
+ "C01": ("servlab", "exploration",
+   "runtime monitor on regenerated client+server pairs: recording handler and middleware, wire-level in-process transport, reflection-built values in core and hostile mode, snapshot comparison",
+   "Every operation of the regenerated corpus packages (ogen's own feature specs for parameters of every location/style, request bodies of every media type, response codes/patterns/defaults/headers, forms, security; plus examples) is called through the generated client against the generated server with values built by reflection and accepted by the generated Validate(); the handler answers with a built response whose status code is drawn from the set the spec allows for that variant. Oracle: exactly one of delivered (handler and middleware see the sent body and parameters; caller sees the returned variant, status, headers, body) or refused (client error or 4xx, handler not invoked); a refused core-domain value or a value that arrives changed is a violation. Thorough crosses feature configurations (validation, request options, otel, reentrant security).",
+   "Core domain: non-empty text over letters, digits, '_', '-' and some non-ASCII letters, finite numbers, whole-second UTC instants. Refusals caused by a schema constraint of a parameter/body are not judged here (C03). The in-process transport applies the header checks of http.Transport. Not judged: wildcard media types, ipv4/ipv6 sharing netip.Addr, ambiguous corpus oneOf values, Go-representation differences with identical JSON.",
+   "DESIGN.md §2 C01"),
  "C04": ("servlab", "exploration",
    "runtime monitor on regenerated packages: reflection-built validated values of every type with a generated JSON codec; strict RFC 8259 parser, two round-trip legs, Go-level and JSON-level comparison",
    "For every named type with Encode/Decode in the regenerated corpus packages (incl. the type x format matrix format_gen.json) values are built by reflection (all Opt/Nil/OptNil states, every sum variant, enums, nil/empty/filled arrays and maps, extreme numbers, Unicode and escape-heavy strings, recursion) and kept if the generated Validate() accepts them. Oracle: Encode output is strict JSON without duplicate members; Decode accepts it; nothing written is lost or changed (members added by schema defaults allowed); the decoded value is a fixed point of a second round trip at JSON and Go level; optional/nullable state, empty-vs-absent array and length differences of the first leg are violations; the decoded value validates. Thorough runs the whole corpus.",
